@@ -611,7 +611,7 @@ OTHERS = [
 ]
 ALPHABET = NUMS + STRS + OTHERS
 AIDX = {a[0]: i for i, a in enumerate(ALPHABET)}
-CORE = ["0", "1", "-1", "0.5", "n", "-(n+1)", "n+1", "2^63", "2^64-1", "2^64", "1E+6000", "-0", "\"\"", "\"abc\"", "str1000", "null", "true", "[]", "[1,2,3]", "list1000",
+CORE = ["nul", "0", "1", "-1", "0.5", "n", "-(n+1)", "n+1", "2^63", "2^64-1", "2^64", "1E+6000", "-0", "\"\"", "\"abc\"", "str1000", "null", "true", "[]", "[1,2,3]", "list1000",
         "nested", "{a:1}", "range", "fn2", "date", "time", "dt-zone", "dtd", "ymd", "dtd-max"]
 
 DATESTR = ["2021-03-28", "999999999-12-31", "-999999999-01-01", "2020-02-29", "2021-02-29", "2021-13-01", "2021-00-00", "0000-01-01", "0999-01-01",
@@ -710,7 +710,9 @@ KIND = {
     "datestr": (S("2021-03-28"), [S(x) for x in DATESTR]), "timestr": (S("02:30:00"), [S(x) for x in TIMESTR]), "durstr": (S("P1D"), [S(x) for x in DURSTR]),
     "dtstr": (S("2021-03-28T01:30:00"), None),   # filled lazily (zone transitions)
     "dateval": ({"date": "2021-03-28"}, []), "timeval": ({"time": "02:30:00"}, []),
-    "year": (N(2021), []), "month": (N(3), []), "day": (N(28), []), "hour": (N(2), []), "minute": (N(30), []), "second": (N(0), []), "offset": ({"dtd": "PT1H"}, []),
+    "year": (N(2021), []), "month": (N(3), []), "day": (N(28), []), "hour": (N(2), []), "minute": (N(30), []), "second": (N(0), []),
+    "offset": ({"dtd": "PT1H"}, [{"dtd": x} for x in ("P1D", "-P1D", "PT23H59M59S", "-PT23H59M59S", "PT24H", "PT14H59M59S", "PT15H", "PT0.5S", "P18446744073709551615D",
+                                                      "PT2147483647S", "PT2147483648S", "-PT2147483649S", "PT4294967296S", "PT4294970896S", "PT9223372036854775807S")]),
     "numstr": (S("1,000.5"), []),
 }
 
@@ -821,7 +823,7 @@ def call_text(fname, args, names=None, inline=None):
 
 
 def sweep_case(fname, bindings, names=None, wrap="{X}", inline=None, labels=()):
-    scope = [[["a%d" % i, b] for i, b in enumerate(bindings)] + [["E", N("1E+6000")]]]
+    scope = [[["a%d" % i, b] for i, b in enumerate(bindings)] + ([["E", N("1E+6000")]] if " E" in wrap else [])]
     text = wrap.replace("{X}", call_text(fname, bindings, names, inline))
     return {"t": text, "es": ["textual"], "s": scope, "sk": "args", "cls": "bif:" + fname, "k": 10 ** 6,
             "labels": ["bif:" + fname, "named" if names else "positional"] + list(labels)}
